@@ -50,6 +50,16 @@ def run(tier, seed):
     for h in range(nh):
         rng = r.rng
         docs = histgen.initial_docs(rng)
+        if rng.random() < 0.4:
+            # a hub module with no fixture of its own: it only re-exports (`from .fx import *`), and the sub conftest
+            # gets its imported fixtures through it - edits of the hub change imports and nothing else
+            hub = histgen.Doc("a/hub.py")
+            hub.blocks.append({"k": "raw", "text": "from .fx import *"})
+            docs[hub.path] = hub
+            c1 = docs["a/conftest.py"]
+            c1.blocks = [b for b in c1.blocks if not (b.get("k") == "raw" and "import" in b.get("text", ""))]
+            c1.blocks.insert(0, {"k": "raw", "text": "from .hub import *"})
+            r.stats["histories_with_reexport_hub"] = r.stats.get("histories_with_reexport_hub", 0) + 1
         paths = list(docs.keys())
         order = list(paths); rng.shuffle(order)
         hname = "h%d" % h
